@@ -428,33 +428,7 @@ func checkC05(e *Engine, r *Report) {
 				e.InstrPos(uc), fn, paramIndex(callArgs(uc)[1]) == 3, "", true)
 		}
 	}
-	// reconfigure: apply() pushes updateContainers after a successful policy.Reconfigure
-	if rec := r.Anchor(pkgRM, "resmgr.reconfigure"); rec != nil {
-		polReconf := e.FuncObj(pkgPolicy, "Policy.Reconfigure")
-		found := false
-		for _, cl := range WithAnon(rec) {
-			rcs := callsToObj(cl, polReconf)
-			if len(rcs) == 0 {
-				continue
-			}
-			found = true
-			r.MustPass("R1:push-after-reconfigure", "R1 drain-on-success",
-				"after a successful policy.Reconfigure every return of apply() passes nri.updateContainers (unsolicited push of changed resources)",
-				cl, rcs[0].(ssa.Instruction), nil, func(in ssa.Instruction) bool { return e.IsCallTo(in, fset(updCtrs)) },
-				callSucceeded(rcs[0].Value()))
-		}
-		r.Check("R1:reconfigure-calls-policy", "R1 drain-on-success", "resmgr.reconfigure applies the configuration through policy.Reconfigure", e.Pos(rec.Pos()), rec, found, "", false)
-		// updateContainers sends what getPendingUpdates collected
-		stubUpd := e.FuncObj("github.com/containerd/nri/pkg/stub", "Stub.UpdateContainers")
-		scs := callsToObj(updCtrs, stubUpd)
-		okSend := len(scs) == 1
-		if okSend {
-			a := callArgs(scs[0])
-			okSend = originAll(a[1], func(x ssa.Value) bool { call, isC := x.(*ssa.Call); return isC && e.IsCallTo(call, fset(getUpd)) })
-		}
-		r.Check("R1:push-sends-drain", "R1 drain-on-success", "updateContainers hands stub.UpdateContainers exactly the updates getPendingUpdates collected",
-			e.Pos(updCtrs.Pos()), updCtrs, okSend, "", true)
-	}
+	checkReconfigurePush(e, r)
 
 	// ---- rule 4: reply discipline in the collectors --------------------------
 	ifaceCtr := e.Named(pkgCA, "Container")
@@ -846,4 +820,39 @@ func sliceLiteralAllConst(v ssa.Value, k *types.Const) bool {
 		}
 	}
 	return good && n > 0
+}
+
+// checkReconfigurePush (C05 rule 3 / C13 rule 5): after a successful
+// policy.Reconfigure the resource manager pushes the pending updates.
+func checkReconfigurePush(e *Engine, r *Report) {
+	getUpd := r.Anchor(pkgRM, "nriPlugin.getPendingUpdates")
+	updCtrs := r.Anchor(pkgRM, "nriPlugin.updateContainers")
+	// reconfigure: apply() pushes updateContainers after a successful policy.Reconfigure
+	if rec := r.Anchor(pkgRM, "resmgr.reconfigure"); rec != nil && updCtrs != nil && getUpd != nil {
+		polReconf := e.FuncObj(pkgPolicy, "Policy.Reconfigure")
+		found := false
+		for _, cl := range WithAnon(rec) {
+			rcs := callsToObj(cl, polReconf)
+			if len(rcs) == 0 {
+				continue
+			}
+			found = true
+			r.MustPass("R1:push-after-reconfigure", "R1 drain-on-success",
+				"after a successful policy.Reconfigure every return of apply() passes nri.updateContainers (unsolicited push of changed resources)",
+				cl, rcs[0].(ssa.Instruction), nil, func(in ssa.Instruction) bool { return e.IsCallTo(in, fset(updCtrs)) },
+				callSucceeded(rcs[0].Value()))
+		}
+		r.Check("R1:reconfigure-calls-policy", "R1 drain-on-success", "resmgr.reconfigure applies the configuration through policy.Reconfigure", e.Pos(rec.Pos()), rec, found, "", false)
+		// updateContainers sends what getPendingUpdates collected
+		stubUpd := e.FuncObj("github.com/containerd/nri/pkg/stub", "Stub.UpdateContainers")
+		scs := callsToObj(updCtrs, stubUpd)
+		okSend := len(scs) == 1
+		if okSend {
+			a := callArgs(scs[0])
+			okSend = originAll(a[1], func(x ssa.Value) bool { call, isC := x.(*ssa.Call); return isC && e.IsCallTo(call, fset(getUpd)) })
+		}
+		r.Check("R1:push-sends-drain", "R1 drain-on-success", "updateContainers hands stub.UpdateContainers exactly the updates getPendingUpdates collected",
+			e.Pos(updCtrs.Pos()), updCtrs, okSend, "", true)
+	}
+
 }
